@@ -200,6 +200,17 @@ theorem section_ranges_exact (boundary : Bytes) (parts : List Part) (epilogue : 
     parseChunks boundary chunks = .ok ⟨expectedMarkups boundary parts, none, true⟩ :=
   parse_refines_R boundary chunks _ (by rw [hc]; exact run_encodeBody boundary parts epilogue hwf)
 
+/-- the same in terms of content: the bytes covered by the sections found are exactly, in order,
+nothing (before the first boundary), then per part its header lines (joined by CRLF) and its
+data — no byte of a delimiter, of a neighbouring part or of the epilogue (shared with C07) -/
+theorem section_contents_exact (boundary : Bytes) (parts : List Part) (epilogue : Bytes)
+    (hwf : WFBody boundary parts) (chunks : List Bytes)
+    (hc : chunks.flatten = encodeBody boundary parts epilogue) :
+    ∃ o, parseChunks boundary chunks = .ok o ∧ o.error = none ∧ o.stopped = true ∧
+      o.markups.map (sectionBytes (encodeBody boundary parts epilogue)) = expectedContents parts :=
+  ⟨_, section_ranges_exact boundary parts epilogue hwf chunks hc, rfl, rfl,
+    expected_contents boundary parts epilogue hwf⟩
+
 /-! ### non-vacuity: concrete instances meeting the hypotheses; the residue outside them -/
 section NonVacuity
 
@@ -218,6 +229,7 @@ example : exBody = [45, 45, 98, 13, 10, 88, 13, 10, 13, 10, 13, 10, 45, 45, 13, 
 example : run exBoundary exBody =
     some ⟨[⟨.data, 0, 0⟩, ⟨.headers, 5, 6⟩, ⟨.data, 10, 14⟩], none, true⟩ := by decide
 example : expectedMarkups exBoundary exParts = [⟨.data, 0, 0⟩, ⟨.headers, 5, 6⟩, ⟨.data, 10, 14⟩] := by decide
+example : expectedContents exParts = [[], [88], [13, 10, 45, 45]] := by decide
 /-- an instance of `markup_split_independent`: a prefix ending inside the closing delimiter, cut
 inside the look-alike and inside the delimiter -/
 example : parseChunks exBoundary (cutAt (exBody.take 19) 0 [12, 13, 17]) =
